@@ -236,6 +236,7 @@ fn find_string(j: &J, needle: &str, path: &str, out: &mut BTreeSet<String>) {
 fn check(cx: &Cx, s: &Subject, cnt: &Counters) {
     cx.eval();
     let case = json!({"schema": s.label, "context": s.context});
+    cx.sample_with(agv_engine::hstr(&case.to_string()), || json!({"schema": s.label, "flavour": s.flavour, "context": s.context, "query": "standard introspection query (ofType ×7, includeDeprecated: true)"}));
     let mut n_viol = 0u64;
     let mut emit = |class: &str, keys: Vec<(&str, String)>, detail: String| {
         n_viol += 1;
